@@ -120,11 +120,42 @@ def run(tier):
             if fields(back) != utc + [0] or str(d64.dtype) != "datetime64[ns]":
                 chk.violation("roundtrip:datetime64", "to_datetime64 and back does not return the instant (whole seconds)",
                               dict(ctx, got=fields(back), dtype=str(d64.dtype)))
+            # ... from every representation (scalars and containers): the same instant to whole seconds
+            want64 = np.datetime64(datetime(*utc), "s")
+            for name, value, _floor in representations(loc, us, off, utc, epoch_s):
+                evals += 1
+                try:
+                    g64 = T.to_datetime64(value)
+                    g = np.atleast_1d(np.asarray(g64))
+                    ok64 = g.shape == (1,) and np.issubdtype(g.dtype, np.datetime64) and g[0].astype("datetime64[s]") == want64
+                except Exception as e:
+                    chk.violation("raise:to_datetime64:%s" % name, "to_datetime64 raised %s for %s" % (type(e).__name__, name),
+                                  dict(ctx, rep=name, value=repr(value)))
+                    continue
+                if not ok64:
+                    chk.violation("to_datetime64:%s" % name, "to_datetime64 of %s is a different instant (whole seconds)" % name,
+                                  dict(ctx, rep=name, value=repr(value), expected=str(want64), got=repr(g64)))
             s = T.datetime_to_iso_time_string(inst)
             back = T.to_datetime_utc(s)
             if fields(back) != utc + [us]:
                 chk.violation("roundtrip:iso", "datetime_to_iso_time_string and parsing does not return the instant",
                               dict(ctx, string=s, got=fields(back)))
+        # formatter / parser round trip on random fractions (leading zeros of the fraction included)
+        for j in range(300 if quick else 5000):
+            usr = rng.choice([rng.randint(1, 99), rng.randint(100, 99999), rng.randint(100000, 999999), 10 ** rng.randint(0, 5)])
+            inst = datetime(2000 + rng.randint(0, 60), rng.randint(1, 12), rng.randint(1, 28), rng.randint(0, 23), rng.randint(0, 59),
+                            rng.randint(0, 59), usr, tzinfo=timezone(timedelta(minutes=rng.choice([0, 0, 330, -480, 765]))))
+            evals += 1
+            try:
+                sj = T.datetime_to_iso_time_string(inst)
+                bj = T.to_datetime_utc(sj)
+                okj = bj == inst
+            except Exception as e:
+                sj, bj, okj = "raised %s" % type(e).__name__, None, False
+            if not okj:
+                chk.violation("roundtrip:iso-fraction", "datetime_to_iso_time_string and parsing does not return the instant (fractional seconds)",
+                              {"instant": inst.isoformat(), "string": sj, "parsed": bj.isoformat() if bj else None})
+                break
         # heterogeneous sequence, None
         if cases:
             c = cases[0]
